@@ -99,6 +99,21 @@ struct BundleKind {
                 o.notes.push_back({"converged_guess", vf::KS() << "initial guess with residual <= 1e-3*tol*|f|: iters=" << it << ", x " << (same_bytes(x, pb.x0[fk][xk]) ? "unchanged" : "changed") << " (max |dx| = " << md << ")"});
             } else vf::count("converged_guess_checked");
         }
+        // absolute companion of the differential oracle (which replays the mutators on the reference object too and therefore cannot
+        // see a defect in what a mutator leaves behind): a plain solve(f,x) that reports convergence has solved the system the
+        // preconditioner holds NOW (after rebuild(A1) that is A1), whatever the history
+        if (!o.status && !Aalt && res == res && res < 1e-8 && fk != F_ZERO && fk != F_NAN) {
+            const auto &Acur = S.precond().system_matrix();
+            long double rr = 0, ff = 0;
+            for (size_t i = 0; i < (size_t)pb.n; ++i) {
+                V a = rhs[i];
+                for (auto j = Acur.ptr[i]; j < Acur.ptr[i + 1]; ++j) a -= Acur.val[j] * x[Acur.col[j]];
+                rr += (long double)std::abs(a) * std::abs(a); ff += (long double)std::abs(rhs[i]) * std::abs(rhs[i]);
+            }
+            double tr = ff > 0 ? (double)std::sqrt(rr / ff) : 0.0;
+            if (!(tr < 1e-5)) o.notes.push_back({"solves_current_matrix", vf::KS() << "solve(f,x) reported residual " << res << " but against the matrix the preconditioner currently holds the residual of x is " << tr});
+            else vf::count("reported_convergence_checked_against_current_matrix");
+        }
         if (o.status) vf::count("calls_that_threw");
         else if (!(res == res) || std::isinf(res)) vf::count("calls_with_nonfinite_residual");
         else if (it >= maxiter) vf::count("calls_hitting_maxiter");
